@@ -536,3 +536,59 @@ Qed.
 (* truncations of a valid encoding are rejected by the reference decoder, hence (decode_sound) never
    decoded to a value different from what consensus says: they are rejected by decode as well
    unless the reference accepts them *)
+
+(* ---- truncation: no strict prefix of an encoding decodes ---- *)
+Lemma firstn_app_le {A} n (a b : list A) : (n <= length a)%nat -> firstn n (a ++ b) = firstn n a.
+Proof. intros H. rewrite firstn_app. replace (n - length a)%nat with 0%nat by lia. cbn. apply app_nil_r. Qed.
+Lemma skipn_app_le {A} n (a b : list A) : (n <= length a)%nat -> skipn n (a ++ b) = skipn n a ++ b.
+Proof. intros H. rewrite skipn_app. replace (n - length a)%nat with 0%nat by lia. reflexivity. Qed.
+
+Lemma spec_decode_atom_extend b s t v r :
+  spec_decode_atom b s = Some (v, r) -> spec_decode_atom b (s ++ t) = Some (v, r ++ t).
+Proof.
+  unfold spec_decode_atom. destruct (b <? 128); [intros H; inversion H; reflexivity|].
+  set (k := leading_ones b). destruct (Nat.ltb 6 k); [discriminate|].
+  destruct (Nat.eqb (length (firstn (k - 1) s)) (k - 1)) eqn:El; cbn [negb]; [|discriminate].
+  apply Nat.eqb_eq in El.
+  assert (Hk : (k - 1 <= length s)%nat).
+  { rewrite firstn_length in El. lia. }
+  rewrite (firstn_app_le (k - 1) s t Hk), (skipn_app_le (k - 1) s t Hk). rewrite El, Nat.eqb_refl. cbn [negb].
+  set (size := be_unsigned (b - (256 - 2 ^ (8 - N.of_nat k)) :: firstn (k - 1) s)).
+  destruct (17179869184 <=? size); [discriminate|].
+  destruct (N.of_nat (length (skipn (k - 1) s)) <? size) eqn:Es; [discriminate|].
+  apply N.ltb_ge in Es.
+  assert (Hs : (N.to_nat size <= length (skipn (k - 1) s))%nat) by lia.
+  assert (Es' : (N.of_nat (length (skipn (k - 1) s ++ t)) <? size) = false).
+  { apply N.ltb_ge. rewrite app_length. lia. }
+  rewrite Es'. rewrite (firstn_app_le _ _ t Hs), (skipn_app_le _ _ t Hs).
+  intros H; inversion H; reflexivity.
+Qed.
+
+Lemma spec_decode_extend : forall g s t v r,
+  spec_decode g s = Some (v, r) -> spec_decode g (s ++ t) = Some (v, r ++ t).
+Proof.
+  induction g as [|g IH]; intros s t v r H; [discriminate|].
+  cbn [spec_decode] in *. destruct s as [|b s']; [discriminate|]. cbn [app].
+  destruct (b =? 255).
+  - destruct (spec_decode g s') as [[l s1]|] eqn:E1; [|discriminate].
+    destruct (spec_decode g s1) as [[rr s2]|] eqn:E2; [|discriminate].
+    inversion H; subst. rewrite (IH _ t _ _ E1), (IH _ t _ _ E2). reflexivity.
+  - apply spec_decode_atom_extend. exact H.
+Qed.
+
+Lemma wf_bytes_app a b : wf_bytes (a ++ b) = true -> wf_bytes a = true.
+Proof. induction a as [|x r IH]; cbn; [reflexivity|]. intros H. apply andb_true_iff in H. destruct H as [Hx Hr]. rewrite Hx, (IH Hr). reflexivity. Qed.
+
+Theorem truncated_rejected v e p t :
+  spec_encode v = Some e -> e = p ++ t -> t <> [] -> wf_bytes e = true -> decode p = None.
+Proof.
+  intros He Hp Ht Hwf. destruct (decode p) as [[v' rest']|] eqn:Ed; [exfalso|reflexivity].
+  assert (Hwp : wf_bytes p = true) by (subst e; eapply wf_bytes_app; exact Hwf).
+  destruct (decode_sound p v' rest' Hwp Ed) as [g Hg].
+  pose proof (spec_decode_extend g p t v' rest' Hg) as Hx. rewrite <- Hp in Hx.
+  pose proof (decode_encode v e [] He) as Hfull. rewrite app_nil_r in Hfull.
+  destruct (decode_sound e v [] Hwf Hfull) as [g' Hg'].
+  pose proof (spec_decode_mono g e _ Hx (Nat.max g g') (Nat.le_max_l _ _)) as A.
+  pose proof (spec_decode_mono g' e _ Hg' (Nat.max g g') (Nat.le_max_r _ _)) as B.
+  rewrite A in B. inversion B as [[Hv Hr]]. destruct rest'; destruct t; try discriminate. apply Ht. reflexivity.
+Qed.
